@@ -562,7 +562,7 @@ func genConfig(t *rapid.T, c *Case) {
 
 // zSegments builds a valid typed message (aircraftlib.Z) from a generated Go value.
 func zSegments(t *rapid.T) [][]byte {
-	z := mirror.GenZ(t, 2)
+	z := mirror.GenZ(&mirror.Rapid{T: t}, 2)
 	arena := capnp.Arena(capnp.SingleSegment(nil))
 	if rapid.Bool().Draw(t, "zmulti") {
 		arena = capnp.MultiSegment([][]byte{make([]byte, 0, 16)})
